@@ -103,10 +103,40 @@ def discover(chk):
                 roles["grow"] = f
             elif rel.name in calls and any(isinstance(n, ast.For) for n in ast.walk(f.node)):
                 roles["shrink"] = f
+    # the adjustment steps are what the run loop calls with the demand as target; their loops may live in private helpers
+    runfi = prog.lookup_method(cls, "run")
+    if runfi is not None and rel is not None:
+        stepped = []
+        for n in ast.walk(runfi.node):
+            if isinstance(n, ast.Call) and isinstance(n.func, ast.Attribute) and util.dotted(n.func.value) == "self" and (n.args or n.keywords):
+                g = prog.lookup_method(cls, n.func.attr)
+                if g is not None and g.cls is cls and g not in stepped and g is not rel:
+                    stepped.append(g)
+        grow_c = [g for g in stepped if "factory" in own_calls(g)]
+        shrink_c = [g for g in stepped if g not in grow_c and rel.name in own_calls(g)]
+        if len(grow_c) == 1 and len(shrink_c) == 1:
+            roles["grow"], roles["shrink"] = grow_c[0], shrink_c[0]
     for need in ("release", "grow", "shrink", "reap"):
         if need not in roles:
             raise Undecided("the %s step of FactoryPool was not found" % need, cls.node)
     return cls, active, released, roles
+
+
+def step_closure(prog, cls, roles, fi):
+    """fi and the own helpers (not themselves steps) it calls, transitively"""
+    keep = set(roles.values())
+    out, todo = [], [fi]
+    while todo:
+        f = todo.pop(0)
+        if f in out:
+            continue
+        out.append(f)
+        for n in ast.walk(f.node):
+            if isinstance(n, ast.Call) and isinstance(n.func, ast.Attribute) and util.dotted(n.func.value) in ("self", "cls", cls.name):
+                g = prog.lookup_method(cls, n.func.attr)
+                if g is not None and g.cls is cls and g not in keep and prog_pick_getter(g) is None:
+                    todo.append(g)
+    return out
 
 
 def rel_env(prog, cls, rel, active, released):
@@ -419,7 +449,7 @@ def guards(chk, cls, active, released, roles):
     # ---- shrink
     fi = roles["shrink"]
     target = ("sym", fi.params()[0])
-    loops = [n for n in ast.walk(fi.node) if isinstance(n, ast.For)]
+    loops = [n for f in step_closure(prog, cls, roles, fi) for n in ast.walk(f.node) if isinstance(n, ast.For)]
     if len(loops) != 1:
         chk.undecided(rule, fi.qual, "shrink step is not a single for loop", node=fi.node)
         return
